@@ -175,7 +175,8 @@ def fresh_rule(model: Model, res, rule: str = "R-FRESH", allow: Optional[Dict[st
                 if not returned:
                     continue        # the inner function dies with the call: its captured state is per call
                 outer_mut = {t.targets[0].id for t in f.node.body if isinstance(t, ast.Assign) and isinstance(t.targets[0], ast.Name)
-                             and _is_mutable_value(t.value)}
+                             and _is_mutable_value(t.value)} | {
+                    t.target.id for t in f.node.body if isinstance(t, ast.AnnAssign) and isinstance(t.target, ast.Name) and _is_mutable_value(t.value)}
                 inner_locals = {x.arg for x in inner.args.args} if hasattr(inner, "args") else set()
                 ws = []
                 for nm in outer_mut - inner_locals:
